@@ -515,6 +515,20 @@ def oracle(ctx):
             break
 
 
+def report(ctx, what, case, detail=None):
+    """record a property failure; failures inside an already well-represented known class are only counted,
+    so that they cannot crowd an unknown failure out of vlib's bounded violation list"""
+    v = {"what": what, "case": case, "detail": detail}
+    for kid, pred in KNOWN.items():
+        if _safe(pred, v):
+            ctx.count("known_class_" + kid)
+            if ctx.hist["known_class_" + kid] > 8:
+                ctx.count("oracle_failures")
+                return
+            break
+    ctx.violation(what, case, detail)
+
+
 def evaluate(ctx, cases):
     runs = []
     for c in cases:
@@ -576,13 +590,13 @@ def evaluate(ctx, cases):
                 break
         if bad:
             ctx.case(key)
-            ctx.violation("%s: %s" % (bad[0], item(items[bad[1]])), dict(case, diff={"kind": "law", "index": bad[1], "impl": item(items[bad[1]])}), None)
+            report(ctx, "%s: %s" % (bad[0], item(items[bad[1]])), dict(case, diff={"kind": "law", "index": bad[1], "impl": item(items[bad[1]])}), None)
             continue
         fl = flags.split()[1] if flags.startswith("ok ") and len(flags.split()) > 1 else ""
         if "0" in fl:
             i = fl.index("0")
             ctx.case(key)
-            ctx.violation("wrong instant %s: it does not satisfy the BY parts / interval grid of the rule" % item(items[i]),
+            report(ctx, "wrong instant %s: it does not satisfy the BY parts / interval grid of the rule" % item(items[i]),
                           dict(case, diff={"kind": "wrong-instant", "index": i, "impl": item(items[i]), "spec": None}), None)
             continue
         if q is None:
@@ -600,16 +614,16 @@ def evaluate(ctx, cases):
                 ctx.count("oracle_error_at_year_9999")
                 continue
             if kind != "ValueError":
-                ctx.violation("%s raised %s" % ("constructor" if st.startswith("ctor_") else "first iteration", kind),
+                report(ctx, "%s raised %s" % ("constructor" if st.startswith("ctor_") else "first iteration", kind),
                               dict(case, diff={"kind": "exception", "exc": kind, "spec": S[0] if S else None}), None)
             elif S:
-                ctx.violation("ValueError although the rule matches %s" % S[0], dict(case, diff={"kind": "exception", "exc": kind, "spec": S[0]}), None)
+                report(ctx, "ValueError although the rule matches %s" % S[0], dict(case, diff={"kind": "exception", "exc": kind, "spec": S[0]}), None)
             else:
                 ctx.count("oracle_valueerror_and_spec_empty")
             continue
         if st.startswith("err_") and not at_end:
             ctx.case(key)
-            ctx.violation("%s raised while iterating after %d items" % (st[4:], len(items)),
+            report(ctx, "%s raised while iterating after %d items" % (st[4:], len(items)),
                           dict(case, diff={"kind": "exception", "exc": st[4:], "index": len(items)}), None)
             continue
         # prefix comparison
@@ -631,7 +645,7 @@ def evaluate(ctx, cases):
             ctx.count("oracle_cap_skipped")
         ctx.case(key, nontrivial=(st != "cap"))
         if diff:
-            ctx.violation("sequence differs from the recurrence set at index %d: implementation %s, specification %s"
+            report(ctx, "sequence differs from the recurrence set at index %d: implementation %s, specification %s"
                           % (diff["index"], diff["impl"], diff["spec"]), dict(case, diff=diff), {"impl": I[:k + 2], "spec": S[:k + 2], "status": st})
         else:
             ctx.count("oracle_agree")
